@@ -5,7 +5,7 @@ M=/tmp/seedrepo.$$
 rm -rf $M && cp -r /repo $M && rm -rf $M/.git
 (cd $M && git init -q . >/dev/null 2>&1; git apply $D/patch.diff) || { echo "APPLY FAILED $D"; rm -rf $M; exit 3; }
 (cd $M && GOFLAGS=-mod=mod GOPROXY=off GOSUMDB=off GOTOOLCHAIN=local go build ./analysis ./analysis/sql ./analysis/httpapi ./generator/... ./cmd 2>&1 | head -5)
-cd /verif && VERIF_SEED=$S VERIF_REPO=$M ./check $P $T > /tmp/seedrun.$$.log 2>&1; rc=$?
+cd /verif && VERIF_SHRINK=${VERIF_SHRINK:-2s} VERIF_SEED=$S VERIF_REPO=$M ./check $P $T > /tmp/seedrun.$$.log 2>&1; rc=$?
 echo "$(basename $D) $P $T seed=$S rc=$rc :: $(grep -v '^KNOWN' /tmp/seedrun.$$.log | head -1 | cut -c1-110)"
 grep -v '^KNOWN' /tmp/seedrun.$$.log | sed -n '2,4p' | cut -c1-240
 rm -rf $M /tmp/seedrun.$$.log
